@@ -432,3 +432,71 @@ def error_replies_carry_the_offending_messages_xid(b):
     "xid_of_a_complete_header": lambda res: n < 8 or res == ((raw[4] * 256 + raw[5]) * 256 + raw[6]) * 256 + raw[7],
     "zero_when_the_header_is_incomplete": lambda res: n >= 8 or res == 0,
   })
+
+
+# ---------------------------------------------------------------- a request with a malformed body is answered with ITS xid
+# (added 2026-09-25 after seeded change C13_8 consumed the message before the bad-length error was built: the error then
+# carried xid 0 and no data - or the xid and bytes of the NEXT pipelined request)
+import contracts.c10_framing as _F10
+from pox.datapaths.switch import OFConnection as _OFConnection
+from pox.lib.ioworker import IOWorker as _IOWorker
+
+
+class _Err(object):
+  pass
+
+
+@unit(P, target=SW + "OFConnection.read / _error_handler / _extract_message_xid (malformed body)")
+def a_malformed_request_is_answered_with_a_bad_length_error_carrying_its_own_xid(b):
+  mtype = b.int("type", 0, 21)                               # any of the 22 message types (all have a decoder)
+  body = b.bytes("body", None, 0, 200)
+  nxt = b.bytes("next_request", None, 0, 40)
+  x = b.int("xid", 0, 2 ** 32 - 1)
+  n = len(body) if b.mode == "conc" else body.length()
+  k = len(nxt) if b.mode == "conc" else nxt.length()
+  if b.mode == "sym":
+    b.assume(k < 4)                                            # what follows is not yet a readable header
+    from pyvc import sbytes as sb
+    from pyvc.models import as_sbytes
+    xb, lb = b.bytes("xid_bytes", 4), b.bytes("len_bytes", 2)
+    b.assume(x == sb.byte_at(xb, 0, b.st) * 16777216 + sb.byte_at(xb, 1, b.st) * 65536 + sb.byte_at(xb, 2, b.st) * 256 + sb.byte_at(xb, 3, b.st))
+    b.assume(sb.byte_at(lb, 0, b.st) * 256 + sb.byte_at(lb, 1, b.st) == 8 + n)
+    tb = b.bytes("type_byte", 1)
+    b.assume(sb.byte_at(tb, 0, b.st) == mtype)
+    M = as_sbytes(b"\x01")
+    for part in (tb, lb, xb, body):
+      M = sb.concat(M, part)
+    S = sb.concat(M, nxt)
+    b.st.ghost["sent"] = ()
+  else:
+    nxt = nxt[:3]
+    M = bytes([1, mtype, (8 + n) >> 8, (8 + n) & 255, x >> 24 & 255, x >> 16 & 255, x >> 8 & 255, x & 255]) + body
+    S = M + nxt
+    del SENT[:]
+  w = b.raw_new(_IOWorker, receive_buf=S, send_buf=b"", closed=False, _shutdown_send=False, _connecting=False)
+  con = b.raw_new(_OFConnection, starting=False, io_worker=w, ID=1, unpackers=_F10.unpackers, on_message_received=_F10.stub_on_message,
+                  log=logging.getLogger("verif"))
+  cs = {}
+  if b.mode == "sym":
+    def ghost(I, st, f, args, kws):
+      st.ghost["sent"] = tuple(st.ghost.get("sent", ())) + (args[1],)
+    cs = {"pox.openflow.libopenflow_01:ofp_base.unpack_new":
+            CallSpec("contract", may_raise=[of.UnderrunError], returns=lambda I, st, a, k_: (0, None),
+                     envelope="the decoder rejects the body (raises) or reports a length other than the declared one"),
+          SW + "OFConnection.send": CallSpec("opaque", ghost=ghost, envelope="queues the reply (C20)")}
+  else:
+    def bad(raw, offset=0):
+      raise of.UnderrunError()
+    con.unpackers = [bad] * 22
+    con.send = lambda m: SENT.append(m)
+  def run(con, w):
+    r = con.read(w)
+    return (r, w.receive_buf)
+  return Case(run, [con, w], calls=cs, raises={}, ensures={
+    "exactly_one_error_is_sent": lambda res: len(sent(b)) == 1 and type(sent(b)[0]) is of.ofp_error,
+    "it_is_bad_request_bad_length": lambda res: sent(b)[0].type == of.OFPET_BAD_REQUEST and sent(b)[0].code == of.OFPBRC_BAD_LEN,
+    "it_carries_the_xid_of_the_offending_request": lambda res: sent(b)[0].xid == x,
+    "and_the_offending_request_as_data": lambda res: sent(b)[0].data == M,
+    "the_request_is_skipped_what_follows_stays_buffered": lambda res: res[1] == nxt,
+  })
+a_malformed_request_is_answered_with_a_bad_length_error_carrying_its_own_xid.bound = "one request with a body of 0..200 bytes, up to 3 bytes of the next one"
